@@ -272,6 +272,7 @@ pub fn run_c10(tier: &str, seed: u64, model: &Model, corpus_lines: Vec<String>, 
     let mut run_one = |c: &MinCase, section: &str, rep: &mut Report, traces: &mut u64, branching: &mut Vec<usize>| {
         counter += 1;
         let uid = format!("c10_{}_{}", seed, counter);
+        progress(&c.req());
         rep.evaluations += 1;
         rep.count(&format!("{}/sched:{}", section, c.sched.split(':').next().unwrap()), 1);
         rep.count(&format!("{}/threads:{}", section, c.threads), 1);
@@ -365,6 +366,13 @@ pub fn run_c10(tier: &str, seed: u64, model: &Model, corpus_lines: Vec<String>, 
         };
         let c = MinCase { recs, w, m, threads, sched };
         run_one(&c, "random", &mut rep, &mut traces, &mut branching);
+    }
+    // one large input (more than 1 MiB of bases, ~12000 records): batching / buffering thresholds
+    {
+        let n = if tier == "thorough" { 40_000 } else { 12_000 };
+        let recs: Vec<Vec<u8>> = (0..n).map(|_| { let l = rng.range(60, 140) as usize; gen::clean_seq(&mut rng, l, gen::Flavor::Uniform) }).collect();
+        let c = MinCase { recs, w: 15, m: 7, threads: 4, sched: "free".into() };
+        run_one(&c, "large", &mut rep, &mut traces, &mut branching);
     }
     rep.traces_validated = traces;
     rep.schedules_enumerated = n_sched;
